@@ -144,15 +144,16 @@ def hasResponse (code : Nat) : Bool :=
   | some (_, _, _, r) => r
   | none => false
 
-/-- serializer.go DecodeDnsResponseWithParams on the unwrapped bytes: `IsOfType(data)` indexes data[0]
-    (the `len(data) < 0` guard can never fire), so empty data is an index panic -/
+/-- serializer.go DecodeDnsResponseWithParams on the unwrapped bytes: an answer without data and a
+    reserved command letter (nil `NewResponse`) are reported as errors (they were an index panic and a
+    nil call before the C12 repairs) -/
 def decodeResp (b32 down : Codec) (data : List Nat) : Dec Resp :=
   match data with
-  | [] => .panic
+  | [] => .err
   | c :: _ =>
     match SA.Gen.C09.commandTable.find? (fun e => c == e.1 || lower c == e.1) with
     | none => .err
-    | some (code, _, _, hasR) => if hasR then decodeBody b32 down code data else .panic
+    | some (code, _, _, hasR) => if hasR then decodeBody b32 down code data else .err
 
 /-! ### wrap.go -/
 
@@ -353,7 +354,10 @@ def roundTrip (b32 down : Codec) (t : RRType) (domain : List Nat) (r : Resp) : O
     match answersOverWire answers with
     | .error .pack => .packError
     | .error .unpack => .unpackError
-    | .ok got =>
+    | .ok sent =>
+      -- modelled miekg: the header's ANCOUNT is 16 bits; Pack writes len(Answer) mod 2^16, Unpack reads
+      -- that many records and ignores the rest of the message
+      let got := sent.take (sent.length % 65536)
       match unwrap domain.length got with
       | none => .panic
       | some data =>
